@@ -52,6 +52,8 @@ class ConclusionSelector(LogicalBinaryOperator, ABC):
         required_output = {
             k: v for k, v in output.bindings.items() if k in required_vars
         }
+        # the same bindings may trigger different conclusions (e.g. a rule and its next_rule)
+        required_output[-1] = tuple(sorted(c._id_ for c in conclusions))
 
         if not self.concluded_before[not self._is_false_].check(required_output):
             self._conclusion_.update(conclusions)
